@@ -17,7 +17,7 @@ from harness.concretize import PROFILES, ID_BASE
 
 PID = 'C06'
 VARIANTS_QUICK = [{}, {'natural': True}, {'prefix': True}, {'presorted': True}, {'buffersize': 1}, {'buffersize': 2, 'cache': False},
-                  {'indexkey': True}, {'indexkey': True, 'sharednames': True}, {'inputs': 'revsorted'}, {'inputs': 'revsorted', 'buffersize': 2}]
+                  {'indexkey': True}, {'indexkey': True, 'sharednames': True}, {'inputs': 'revsorted'}, {'inputs': 'revsorted', 'buffersize': 2}, {'natural': True, 'intnames': True}]
 ACTIONS = ['PickLeft', 'PickRight', 'Less', 'Greater', 'Equal', 'FlushLeft', 'FlushRight']
 
 
@@ -30,7 +30,13 @@ def run_case(case, pname, variant, occ=0):
     return joinlib.compare(case, prof, got, variant)
 
 
+def _job(j):
+    ci, case, pname, variant = j
+    return run_case(case, pname, dict(variant), occ=ci)
+
+
 def check_cases(chk, cases, profiles, full):
+    jobs = []
     for ci, case in enumerate(cases):
         if full:
             combos = [(p, v) for p in profiles for v in VARIANTS_QUICK]
@@ -38,9 +44,9 @@ def check_cases(chk, cases, profiles, full):
             # rotate profiles and option variants over the cases; the plain call always runs
             combos = [(profiles[ci % len(profiles)], {}),
                       (profiles[(ci // 2) % len(profiles)], VARIANTS_QUICK[1 + ci % (len(VARIANTS_QUICK) - 1)])]
-        for pname, variant in combos:
-            with_tmp = dict(variant)
-            msg, drift = run_case(case, pname, with_tmp, occ=ci)
+        jobs += [(ci, case, pname, variant) for pname, variant in combos]
+    for (ci, case, pname, variant), (msg, drift) in zip(jobs, common.pmap(_job, jobs)):
+        if True:
             chk.count(('join', ci, pname, json.dumps(variant, sort_keys=True)))
             chk.replayed += 1
             if msg:
